@@ -406,12 +406,19 @@ def gen_histrestraint(r, k, T):
     cfg = ["colvar {", "  name v0", "  distancePairs {", "    group1 { atomNumbers 1 2 }", "    group2 { atomNumbers 3 4 }",
            "  }", "}"]
     ref = [r.choice([0.0, 0.125, 0.25, 0.5]) for _ in range(8)]
+    if sum(ref) == 0:
+        ref[3] = 0.5
+    sig = r.choice([0.5, 1.0])
+    kk = r.choice([1.0, 2.0])
     B = ["histogramRestraint {", "  name hr", "  colvars v0", "  lowerBoundary 0.0", "  upperBoundary 8.0", "  width 1.0",
-         "  gaussianSigma %r" % r.choice([0.5, 1.0]), "  refHistogram " + vec(ref), "  forceConstant %r" % r.choice([1.0, 2.0]),
+         "  gaussianSigma %r" % sig, "  refHistogram " + vec(ref), "  forceConstant %r" % kk,
          "  outputEnergy on", "}"]
+    # colvarbias_restraint_histogram::init: the reference is divided by its integral unless that is 1 within 1e-3
+    integral = sum(ref) * 1.0
+    nref = ref if abs(integral - 1.0) <= 1.0e-3 else [x / integral for x in ref]
     pos = walk(r, T, na, lo=-4.0, hi=4.0, bits=3)
     return {"fam": "histrestraint", "tags": ["histogramRestraint"], "sigtags": [], "natoms": na, "config": cfg + B, "it0": 0,
-            "pos": pos, "cvnames": []}
+            "pos": pos, "cvnames": ["v0"], "model": {"k": kk, "sigma": sig, "lower": 0.0, "width": 1.0, "ref": nref}}
 
 
 # ------------------------------------------------------------------------------------------------ eABF (ABF on an extended variable, CZAR)
